@@ -88,13 +88,15 @@ def kwOf : Raw → List (String × Raw)
   | .dict kvs => kvs
   | _ => []
 
+/-- A reduced group reaches later reductions as a `Group`-typed `ParseResults` holding the
+action's return value: it is never "a number" and never `SQL_NULL` for them. -/
 def builders (assoc : List String) : Builders Raw where
-  mkPre := fun _ t x => mkPrefix t.name x
+  mkPre := fun _ t x => .grp (mkPrefix t.name x)
   mkSuf := fun L x t =>
-    if L.act == 1 then .call "get" (.list (x :: argList t.payload)) []
-    else if L.act == 2 then .call "value" (.list [x]) (kwOf t.payload)
-    else .call "cast" (.list [x, t.payload]) []
-  mkBin := fun _ a t b => mkBinary assoc t.name a b
-  mkTern := fun _ a t0 b _ c => .call t0.name (.list [a, b, c]) []
+    if L.act == 1 then .grp (.call "get" (.list (x :: argList t.payload)) [])
+    else if L.act == 2 then .grp (.call "value" (.list [x]) (kwOf t.payload))
+    else .grp (.call "cast" (.list [x, t.payload]) [])
+  mkBin := fun _ a t b => .grp (mkBinary assoc t.name a b)
+  mkTern := fun _ a t0 b _ c => .grp (.call t0.name (.list [a, b, c]) [])
 
 end MoSql.OpJson
